@@ -9,6 +9,7 @@ through it) and EVERY UCB index `val` (mean + exploration bonus), so no property
 `log` or `sqrt` is assumed.
 -/
 import CobaVerif.Lemmas.C16
+import CobaVerif.Lemmas.C16Real
 
 namespace Coba.C16
 open Coba.C05 (next)
@@ -142,5 +143,149 @@ theorem corral_unguarded_shortcut_counterexample :
     let new := (omdDenoms ps etas losses 1000000000).map (fun d => 1 / d)
     (∀ p ∈ ps, 0 < p) ∧ ps.sum = 1 ∧ rounds1 new.sum = true ∧ (∃ x ∈ new, x < 0) ∧
       omdRaw ps etas losses 1000000000 = none := omd_shortcut_witness
+
+/-! ## Phase 2 -/
+
+/-- `f(λ) = Σ 1/(1/p_i + η_i(ℓ_i-λ))` over ℝ is the model's `update` sum (cast) … -/
+theorem omd_model_is_barrier (ps etas losses : List Rat) (lam : Rat) :
+    barrier (tris ps etas losses) (lam : ℝ) = ((((omdDenoms ps etas losses lam).map (fun d => 1 / d)).sum : Rat) : ℝ) :=
+  barrier_tris ps etas losses lam
+
+/-- … and `update(λ)` is defined exactly left of every pole `ℓ_i + 1/(p_i η_i)` -/
+theorem omd_defined_iff_below (ps etas losses : List Rat) (lam : Rat) (hp : ∀ p ∈ ps, 0 < p) (he : ∀ e ∈ etas, 0 < e) :
+    Below (tris ps etas losses) (lam : ℝ) ↔ ∀ d ∈ omdDenoms ps etas losses lam, 0 < d :=
+  below_tris_iff ps etas losses lam hp he
+
+/-- **the first bracket has a root, and only one** (IVT + strict monotonicity over ℝ): for positive
+weights summing to 1 and positive learning rates there is exactly one real multiplier left of every
+pole with `f = 1`, and it lies between the smallest and the largest loss — the interval the repaired
+`_log_barrier_omd` bisects.  (f is continuous and strictly increasing there, `f(min ℓ) ≤ Σp`, and
+`f ≥ 1` is reached before the first pole.) -/
+theorem first_bracket_has_root (ps etas losses : List Rat) (hne : ps ≠ []) (h1 : etas.length = ps.length)
+    (h2 : losses.length = ps.length) (hp : ∀ p ∈ ps, 0 < p) (he : ∀ e ∈ etas, 0 < e) (hsum : ps.sum = 1) :
+    ∃ x : ℝ, Below (tris ps etas losses) x ∧ barrier (tris ps etas losses) x = 1 ∧
+      (∀ y, Below (tris ps etas losses) y → barrier (tris ps etas losses) y = 1 → y = x) ∧
+      (∃ m ∈ tris ps etas losses, (∀ t ∈ tris ps etas losses, m.2.2 ≤ t.2.2) ∧ m.2.2 ≤ x) ∧
+      (∃ M ∈ tris ps etas losses, (∀ t ∈ tris ps etas losses, t.2.2 ≤ M.2.2) ∧ x ≤ M.2.2) :=
+  first_bracket_root_model ps etas losses hne h1 h2 hp he hsum
+
+/-- **termination of the repaired bisection** over any linearly ordered carrier `F` with a strictly
+monotone rank into ℕ (IEEE doubles ordered by value), ANY midpoint that stays inside the bracket
+(`fl((l+r)/2)` does, rounding being monotone), ANY exit test, probe and decision rule: the loop
+leaves by one of its own exits within `rank r - rank l + 1` iterations (for doubles: at most the
+number of doubles strictly inside the bracket, plus one). -/
+theorem bisect_terminates {F α} [LinearOrder F] (mid : F → F → F) (done : α → Bool) (probe : F → Option α) (tooBig : α → Bool)
+    (rank : F → Nat) (hrank : StrictMono rank) (hmid : ∀ l r, l ≤ r → l ≤ mid l r ∧ mid l r ≤ r) (fuel : Nat)
+    (l r : F) (cur : α) (hlr : l ≤ r) (hfuel : rank r - rank l < fuel) :
+    (bisect mid done probe tooBig fuel l r cur).2 = true :=
+  bisect_halts mid done probe tooBig rank hrank hmid fuel l r cur hlr hfuel
+
+example : StrictMono (fun i : Fin 1000 => i.val) ∧
+    ∀ l r : Fin 1000, l ≤ r → l ≤ (⟨(l.val + r.val) / 2, by omega⟩ : Fin 1000) ∧ (⟨(l.val + r.val) / 2, by omega⟩ : Fin 1000) ≤ r := by
+  refine ⟨fun a b h => h, ?_⟩
+  intro l r h
+  have : l.val ≤ r.val := h
+  constructor
+  · show l.val ≤ (l.val + r.val) / 2; omega
+  · show (l.val + r.val) / 2 ≤ r.val; omega
+
+/-- and whatever happens it only ever holds a multiplier it has probed successfully -/
+theorem bisect_keeps_valid {F α} [DecidableEq F] (mid : F → F → F) (done : α → Bool) (probe : F → Option α) (tooBig : α → Bool)
+    (fuel : Nat) (l r : F) (cur : α) (h : probe l = some cur) :
+    probe (bisect mid done probe tooBig fuel l r cur).1.1 = some (bisect mid done probe tooBig fuel l r cur).1.2 :=
+  bisect_inv mid done probe tooBig fuel l r cur h
+
+/-- **nested compositions**: at every nesting depth `n` (plain learners; Misguided Corrals over
+plain learners; Corrals over those; …) `predict` returns an offered action with a positive
+probability and `learn` does not raise and keeps the invariant — under the FORCED HYPOTHESIS
+`accepts`: every Corral at or below the learner is handed a reward in [0,1] (after its Misguided
+wrappers) and a non-zero probability (`towerLaws`/`corralLaws` spell it out). -/
+theorem corral_nested_valid (fl : Rat → Rat) (n : Nat) :
+    (∀ s actions, (towerLaws fl n).inv s → actions ≠ [] → actions.Nodup → (towerLaws fl n).fits s actions.length →
+      ∃ s' a p, (tower fl n).predict s actions = .ok (s', a, p) ∧ (towerLaws fl n).inv s' ∧ (towerLaws fl n).ready s' ∧
+        a ∈ actions ∧ 0 < p ∧ (∀ m, (towerLaws fl n).fits s m → (towerLaws fl n).fits s' m)) ∧
+    (∀ s a r p, (towerLaws fl n).inv s → (towerLaws fl n).ready s → (towerLaws fl n).accepts s a r p →
+      ∃ s', (tower fl n).learn s a r p = .ok s' ∧ (towerLaws fl n).inv s' ∧ (∀ m, (towerLaws fl n).fits s m → (towerLaws fl n).fits s' m)) :=
+  ⟨(towerLaws fl n).predict_ok, (towerLaws fl n).learn_ok⟩
+
+/-- the hypothesis is necessary, and importance mode violates it for an inner Corral: reward 1 at
+probability 1/2 reaches the base learner that chose the played action as 2, which a Corral rejects
+(`assert 0 <= reward <= 1`; replayed on the real code) -/
+theorem corral_importance_feedback_unbounded :
+    corralFeedback true [0] [1] 0 1 (1 / 2) = [(0, 2, 1)] ∧
+      ∀ (c : Corral) (bacts : List Act) (a : Act) (p : Rat), c.learn bacts a 2 p = .error .assertion :=
+  importance_feedback_unbounded
+
+/-- UCB1 initialisation: while an offered action has never been observed, exactly the never-observed
+actions carry probability, uniformly — for every index function -/
+theorem ucb_never_observed_first (val : Act → Rat) (st : Ucb) (actions : List Act) (hnd : actions.Nodup)
+    (h : ∃ a ∈ actions, dhas st.m a = false) :
+    st.pmf val actions = .ok (actions.map (fun a =>
+      if dhas st.m a = false then 1 / ((actions.filter (fun a => !dhas st.m a)).length : Rat) else 0)) :=
+  Ucb.pmf_never_first val st actions hnd h
+
+/-- epsilon-greedy: each of the `k` greedy actions (maximal `_Q`) carries `(1-ε)/k + ε/n`, every other `ε/n` -/
+theorem eps_greedy_argmax_mass (st : Eps) (actions : List Act) (hne : actions ≠ []) :
+    ∃ (M : Rat) (k : Nat), (∀ a ∈ actions, st.q a ≤ M) ∧ (∃ a ∈ actions, st.q a = M) ∧
+      k = (actions.filter (fun a => decide (st.q a = M))).length ∧ 0 < k ∧
+      st.pmf actions = actions.map (fun a =>
+        if st.q a = M then (1 - st.eps) / (k : Rat) + st.eps / (actions.length : Rat) else st.eps / (actions.length : Rat)) :=
+  Eps.pmf_shape st actions hne
+
+/-- `MisguidedLearner.learn` teaches the wrapped learner `shifter + scaler*reward` (as computed in
+floating point) and changes nothing else … -/
+theorem misguided_learn (fl : Rat → Rat) (L : Learner) (sh sc : Rat) (a : Act) (r : Rat) :
+    ({ L with mis := (sh, sc) :: L.mis }).learn fl a r =
+      (match L.learn fl a (fl (sh + fl (sc * r))) with
+       | .ok L' => .ok { L' with mis := (sh, sc) :: L'.mis }
+       | .error e => .error e) := Learner.learn_misguided fl L sh sc a r
+
+/-- … and its `predict` / `score` are the wrapped learner's -/
+theorem misguided_predict (val : Act → Rat) (L : Learner) (m : List (Rat × Rat)) (actions : List Act) :
+    ({ L with mis := m }).predict val actions =
+      (match L.predict val actions with
+       | .ok (L', i, p, pmf) => .ok ({ L' with mis := m }, i, p, pmf)
+       | .error e => .error e) := Learner.predict_misguided val L m actions
+
+theorem misguided_score (val : Act → Rat) (L : Learner) (m : List (Rat × Rat)) (actions : List Act) (a : Act) :
+    ({ L with mis := m }).score val actions a = L.score val actions a := Learner.score_misguided val L m actions a
+
+/-- `PMFInfoPredictor.predict` (Corral): an offered action with its strictly positive mixture probability … -/
+theorem corral_predict_mem_pos (c : Corral) (actions bacts : List Act) (hinv : c.Inv)
+    (hnd : actions.Nodup) (hlen : bacts.length = c.ps.length) (hb : ∀ b ∈ bacts, b ∈ actions) :
+    ∃ i p, c.predict actions bacts = .ok ({ c with rng := next c.rng }, i, p, corralPmf c.pbars bacts actions) ∧
+      Valid (corralPmf c.pbars bacts actions) actions.length ∧ i < actions.length ∧
+      (corralPmf c.pbars bacts actions)[i]? = some p ∧ 0 < p := Corral.predict_ok c actions bacts hinv hnd hlen hb
+
+/-- … and `PMFInfoPredictor.score` indexes the same pmf -/
+theorem corral_score_eq_pmf (c : Corral) (actions bacts : List Act) (a : Act) (ha : a ∈ actions) :
+    ∃ p, c.score actions bacts a = .ok p ∧ (corralPmf c.pbars bacts actions)[actions.idxOf a]? = some p :=
+  Corral.score_eq c actions bacts a ha
+
+/-- termination restricted to a sub-carrier `D` of the multipliers (the doubles inside ℚ): the rounded
+midpoint maps `D` to `D` and stays in the bracket, `rank` is strictly monotone on `D` -/
+theorem bisect_terminates_on {F α} [LinearOrder F] (mid : F → F → F) (done : α → Bool) (probe : F → Option α) (tooBig : α → Bool)
+    (D : F → Prop) (rank : F → Nat) (hrank : ∀ x y, D x → D y → x < y → rank x < rank y)
+    (hmid : ∀ l r, D l → D r → l ≤ r → D (mid l r) ∧ l ≤ mid l r ∧ mid l r ≤ r) (fuel : Nat)
+    (l r : F) (cur : α) (hl : D l) (hr : D r) (hlr : l ≤ r) (hfuel : rank r - rank l < fuel) :
+    (bisect mid done probe tooBig fuel l r cur).2 = true :=
+  bisect_halts_on mid done probe tooBig D rank hrank hmid fuel l r cur hl hr hlr hfuel
+
+/-- the float-faithful `_log_barrier_omd` (`omdF`: every operation through `fl`, CPython's compensated
+`sum`, the same `bisect` loop; with `fl = flDouble` its output equals the real function's, checked on
+every generated Corral update): for EVERY `fl` the returned weights are `fl(w/total)` of an
+`update(λ)` whose rounded denominators are all positive … -/
+theorem omd_float_from_probed (fl : Rat → Rat) (fuel : Nat) (ps etas losses : List Rat) (ws : List Rat) (h : Bool)
+    (hne : losses ≠ []) (hres : omdF fl fuel ps etas losses = some (ws, h)) :
+    ∃ lam cur, omdRawF fl ps etas losses lam = some cur ∧ ws = cur.map (fun p => fl (p / pySum fl cur)) :=
+  omdF_from_probed fl fuel ps etas losses ws h hne hres
+
+/-- … and on the doubles the loop halts by its own exits within `rank(max ℓ) - rank(min ℓ) + 1` iterations -/
+theorem omd_float_halts (fl : Rat → Rat) (fuel : Nat) (ps etas : List Rat) (l0 : Rat) (ls : List Rat)
+    (D : Rat → Prop) (rank : Rat → Nat) (hrank : ∀ x y, D x → D y → x < y → rank x < rank y)
+    (hmid : ∀ l r, D l → D r → l ≤ r → D (fl (fl (l + r) / 2)) ∧ l ≤ fl (fl (l + r) / 2) ∧ fl (fl (l + r) / 2) ≤ r)
+    (hlo : D (minOf l0 ls)) (hhi : D (maxOf l0 ls)) (hfuel : rank (maxOf l0 ls) - rank (minOf l0 ls) < fuel) :
+    ∀ ws h, omdF fl fuel ps etas (l0 :: ls) = some (ws, h) → h = true :=
+  omdF_halts fl fuel ps etas l0 ls D rank hrank hmid hlo hhi hfuel
 
 end Coba.C16
